@@ -9,7 +9,7 @@ import json
 import common
 import dataflow_check as chk
 
-MODEL_FILES = ['MaltModel/Analysis/Dataflow.lean', 'MaltModel/Analysis/Worklist.lean', 'MaltModel/Analysis/CfgData.lean',
+MODEL_FILES = ['MaltModel/Analysis/Dataflow.lean', 'MaltModel/Analysis/Worklist.lean', 'MaltModel/Proofs/C06Worklist.lean', 'MaltModel/Analysis/CfgData.lean',
                'MaltModel/Analysis/ReachDef.lean', 'MaltModel/Analysis/FnDefs.lean', 'MaltModel/Analysis/Liveness.lean', 'MaltModel/Drv/Dataflow.lean', 'MaltModel/Drv/C07.lean']
 
 
